@@ -147,7 +147,9 @@ func c07Record(col *collector, c c07Case) {
 		}
 	})
 	col.eval(nontrivial, hash64(fmt.Sprint(c)), cl...)
-	col.sample(func() any { return map[string]any{"forest": c.Forest.String(), "entry": c.Entry, "dryRun": c.DryRun, "massive": c.Massive, "exts": c.Exts} })
+	col.sample(func() any {
+		return map[string]any{"forest": c.Forest.String(), "entry": c.Entry, "dryRun": c.DryRun, "massive": c.Massive, "exts": c.Exts}
+	})
 }
 
 var preOpPool = []string{"output", "output-custom", "output-massive", "json", "yaml", "toml", "walk", "walkiter", "walkiter-break", "dryrun", "verify", "verify-massive", "verify-noopt", "mkdir-elsewhere", "mkdir-elsewhere-massive"}
